@@ -72,11 +72,38 @@ class C01(Prop):
                 w = [rng.randint(top // 2, top) for _ in range(n)]
             yield {"stream": "dtype", "f": "mean", "level": "1/2", "inc": rng.random() < 0.5, "ydtype": ydt, "wdtype": wdt,
                    "y": [str(v) for v in ys], "w": None if w is None else [str(v) for v in w]}
+        for k in range(150 if tier == "quick" else 2000):
+            # the estimator class on distinct, sorted X with y (and weights) given as plain Python lists - also lists whose first
+            # element is a numpy integer scalar while the others are not whole numbers: the fit at the training points is the
+            # isotonic regression of y
+            n = rng.randint(2, 9)
+            ys = [Fraction(rng.randint(0, 6))] + [Fraction(rng.randint(0, 24), 4) for _ in range(n - 1)]
+            w = None if rng.random() < 0.4 else [Fraction(rng.randint(1, 3))] + [Fraction(rng.randint(2, 12), 4) for _ in range(n - 1)]
+            yield {"stream": "class_list", "f": "mean", "level": "1/2", "inc": rng.random() < 0.5, "npint_first": rng.random() < 0.7,
+                   "y": [str(v) for v in ys], "w": None if w is None else [str(v) for v in w]}
         for k in range(300 if tier == "quick" else 3000):
             n = rng.randint(1, 40)
             yield {"stream": "pava", "f": "mean", "level": "1/2", "inc": True, "y": ic.gen_y(rng, n), "w": ic.gen_w(rng, n, allow_none=False)}
 
     def impl(self, case):
+        if case["stream"] == "class_list":
+            from model_diagnostics._utils.isotonic import IsotonicRegression
+            from .core import exc_class
+
+            def as_list(vals):
+                out = [float(Fraction(v)) for v in vals]
+                if case["npint_first"]:
+                    out[0] = np.int64(int(out[0]))
+                return out
+
+            y, w = as_list(case["y"]), None if case["w"] is None else as_list(case["w"])
+            X = [float(i) for i in range(len(y))]
+            try:
+                m = IsotonicRegression(increasing=case["inc"], functional="mean").fit(X, y, sample_weight=w)
+                x = m.predict(np.array(X))
+            except Exception as e:
+                return {"err": exc_class(e), "msg": str(e)[:200]}
+            return {"x": [float(v) for v in np.atleast_1d(x)], "r": [], "mutated": False}
         if case["stream"] == "pava":
             from model_diagnostics._utils.isotonic import pava
 
